@@ -117,6 +117,11 @@ def run_case(case, ctx):
         return
     if 'changed_by_later_call' in res:
         ctx.count('earlier_results_checked_after_a_later_call')
+    if res.get('x_modified'):
+        ctx.reject('callers_array_modified', detail=dict(program=prog), method=method, n=n)
+        return
+    if 'x_modified' in res:
+        ctx.count('callers_array_unchanged_asserted')
     if case['shape']:
         ctx.count('array_cases')
     if case['step']['kind'] in ('min', 'max'):
